@@ -243,4 +243,21 @@ fire("c11-prepend", ["C11"], SOCK, "                self._buffer += data", "    
 silent("c11-del-idiom", ["C11"], [(SOCK, "        data = self._buffer[:num]\n        self._buffer = self._buffer[num:]\n        return bytes(data)", "        data = bytes(self._buffer[:num])\n        del self._buffer[:num]\n        return data")], "equivalent truncation idiom")
 silent("c11-loop-style", ["C11"], [(SOCK, "            if not self._recv():\n                return b\"\"", "            ok = self._recv()\n            if not ok:\n                return b\"\"")], "equivalent")
 
+# ----------------------------------------------------------------------------- C12
+_C12_FIX = '                term = instream.readline()\n                if len(chunk) != chunk_length or term[-2:] != b"\\r\\n":\n                    # premature end of chunk bytes or of chunk terminator\n                    partial = length_bytes + chunk + term\n                    break\n'
+fire_multi("c12-terminator-unchecked", ["C12"], [(SOCK, _C12_FIX, '                if len(chunk) != chunk_length:\n                    partial = length_bytes + chunk\n                    break\n'), (SOCK, "                chunks += chunk\n\n            if chunk_length == 0:", "                chunks += chunk\n\n            instream.readline()\n            if chunk_length == 0:")], "original defect F-C12 re-introduced")
+fire("c12-partial-drops-length", ["C12"], SOCK, "partial = length_bytes + chunk + term", "partial = chunk + term", "carried bytes lose the size line")
+fire("c12-partial-drops-term", ["C12"], SOCK, "partial = length_bytes + chunk + term", "partial = length_bytes + chunk", "partial terminator bytes lost")
+fire("c12-prepend-order", ["C12"], SOCK, "data = self._partial + data", "data = data + self._partial")
+fire("c12-base10", ["C12"], SOCK, "chunk_length = int(length_bytes.strip(), 16)", "chunk_length = int(length_bytes.strip(), 10)")
+fire("c12-commit-before-check", ["C12"], SOCK, "                chunk = instream.read(chunk_length)\n                term = instream.readline()\n", "                chunk = instream.read(chunk_length)\n                chunks += chunk\n                term = instream.readline()\n", "data appended before its completeness is known: duplicated on the next receive")
+fire("c12-length-check-only", ["C12"], SOCK, 'if len(chunk) != chunk_length or term[-2:] != b"\\r\\n":', "if len(chunk) != chunk_length:", "terminator read but not checked")
+fire("c12-length-line-lf-only", ["C12"], SOCK, '            if length_bytes[-2:] != b"\\r\\n":\n                # premature end of length bytes', '            if length_bytes[-1:] != b"\\r":\n                # premature end of length bytes', "size line accepted when the LF has not arrived")
+fire("c12-partial-not-stored", ["C12"], SOCK, "chunks, self._partial = self.dechunk(data)", "chunks, _ = self.dechunk(data)")
+fire("c12-gzip-wbits", ["C12"], SOCK, "chunk = decompress(chunk, wbits=MAX_WBITS | 16)", "chunk = decompress(chunk, wbits=MAX_WBITS)")
+fire("c12-deflate-sign", ["C12"], SOCK, "chunk = decompress(chunk, wbits=-MAX_WBITS)", "chunk = decompress(chunk, wbits=MAX_WBITS)")
+fire("c12-extra-exit", ["C12"], SOCK, "            if chunk_length != 0:\n                chunk = instream.read(chunk_length)", "            if chunk_length > 65536:\n                break\n            if chunk_length != 0:\n                chunk = instream.read(chunk_length)", "large chunks silently dropped")
+silent("c12-check-style", ["C12"], [(SOCK, 'if len(chunk) != chunk_length or term[-2:] != b"\\r\\n":', 'if len(chunk) < chunk_length or not term.endswith(b"\\r\\n"):')], "equivalent completeness tests")
+silent("c12-zero-chunk-else", ["C12"], [(SOCK, "                chunks += chunk\n\n            if chunk_length == 0:\n                # final chunk\n                break", "                chunks += chunk\n            else:\n                # final chunk\n                break")], "equivalent structure")
+
 VARIANTS = V
